@@ -1421,6 +1421,70 @@ inline finding_t sweep(const subject_t& s, const fault_plan_t& plan, fault_stats
     const auto& bytes = s.bytes;
     const auto  n     = bytes.size();
 
+    // 0. probe: a handful of the faults below, those that typical reader defects accept (ends of the stream and of
+    //    each tensor).  They are all part of the full sweep; running them first makes a failing case fail fast,
+    //    which keeps shrinking affordable (every shrink attempt re-runs the whole check).
+    {
+        const auto probe_regions = locate_regions(bytes, s.images);
+        bytes_t    mutated       = bytes;
+        if (plan.truncations && n > 0)
+        {
+            std::vector<size_t> offsets = {n - 1, 0, n / 2};
+            for (const auto& region : probe_regions)
+            {
+                offsets.push_back(region.payload_begin());
+                if (region.end() < n)
+                {
+                    offsets.push_back(region.end());
+                }
+                if (region.end() >= 1)
+                {
+                    offsets.push_back(region.end() - 1);
+                }
+            }
+            for (const auto k : offsets)
+            {
+                if (k >= n)
+                {
+                    continue; // strict prefixes only
+                }
+                const auto o = s.read(bytes.data(), k, false);
+                if (!o.failed)
+                {
+                    const auto again = s.read(bytes.data(), k, true);
+                    return {1, cat("C15/", s.family, "/truncation/accepted"),
+                            cat(s.label, ": prefix of ", k, " bytes of a ", n, "-byte stream: ", describe_success(s, again))};
+                }
+            }
+        }
+        if (plan.payload)
+        {
+            for (const auto& region : probe_regions)
+            {
+                if (region.payload_len == 0)
+                {
+                    continue;
+                }
+                for (const auto pos : {region.payload_len - 1, size_t(0), region.payload_len - region.esize, region.payload_len / 2})
+                {
+                    const auto at  = region.payload_begin() + pos;
+                    const auto old = bytes[at];
+                    mutated[at]    = static_cast<char>(old ^ 0x10);
+                    const auto o   = s.read(mutated.data(), n, false);
+                    if (!o.failed && !provable_hash_collision(bytes, region, mutated))
+                    {
+                        const auto again = s.read(mutated.data(), n, true);
+                        return {1, cat("C15/", s.family, "/payload-alteration/accepted"),
+                                cat(s.label, ": payload byte ", pos, " of the tensor at offset ", region.begin, " (element size ", region.esize, ", ", region.count,
+                                    " elements) changed from ", static_cast<int>(static_cast<unsigned char>(old)), " to ",
+                                    static_cast<int>(static_cast<unsigned char>(old ^ 0x10)), ": ", describe_success(s, again))};
+                    }
+                    mutated[at] = old;
+                }
+            }
+        }
+    }
+
     // 1. every strict prefix
     if (plan.truncations)
     {
